@@ -413,6 +413,7 @@ type created struct {
 	owner   []byte
 	stored  []byte // marshalled job as read back right after creation
 	defAddr string
+	defABI  string
 	order   int
 }
 
@@ -575,7 +576,7 @@ func runHistory(run *emit.Run, hs *histSpec, tag string) (res *histResult, fatal
 					if !existed {
 						var jd jsonDef
 						_ = json.Unmarshal([]byte(js.Def), &jd)
-						jobs[js.ID] = &created{spec: *js, owner: owner, stored: bz, defAddr: jd.Address, order: len(order)}
+						jobs[js.ID] = &created{spec: *js, owner: owner, stored: bz, defAddr: jd.Address, defABI: jd.ABI, order: len(order)}
 						order = append(order, js.ID)
 					}
 				}
@@ -775,7 +776,10 @@ func runHistory(run *emit.Run, hs *histSpec, tag string) (res *histResult, fatal
 						}
 					}
 					if it.call.HexContractAddress != stored.defAddr {
-						violate("C17:wrong-contract", fmt.Sprintf("job %q calls %q, definition says %q", op.ID, it.call.HexContractAddress, stored.defAddr))
+						violate("C17:wrong-contract", fmt.Sprintf("job %q calls %q, the stored definition says %q", op.ID, it.call.HexContractAddress, stored.defAddr))
+					}
+					if string(it.call.Abi) != string(common.FromHex(stored.defABI)) {
+						violate("C17:wrong-abi", fmt.Sprintf("call of job %q carries abi %x, the stored definition says %q", op.ID, it.call.Abi, stored.defABI))
 					}
 					if haveID && msgID != it.id {
 						violate("C17:wrong-message-id", fmt.Sprintf("execute of %q returned id %d, call has id %d", op.ID, msgID, it.id))
@@ -794,6 +798,9 @@ func runHistory(run *emit.Run, hs *histSpec, tag string) (res *histResult, fatal
 					if !js.Mod && len(suppliedJSON) > 0 {
 						violate("C17:fixed-payload-overridden", fmt.Sprintf("job %q is not modifiable but a run with a supplied payload succeeded", op.ID))
 					}
+					lb := strings.ToLower(string(base))
+					run.Count("ran-with-document", fmt.Sprintf("supplied=%v definition-keys-in-payload=%v duplicate-hexpayload=%v", usedSupplied,
+						strings.Contains(lb, "address") || strings.Contains(lb, "\"abi\""), strings.Count(lb, "hexpayload") > 1))
 					var jp jsonPay
 					if jerr := json.Unmarshal(base, &jp); jerr != nil {
 						violate("C17:undecodable-payload-executed", fmt.Sprintf("job %q ran with a payload that is not JSON", op.ID))
@@ -867,17 +874,27 @@ func runHistory(run *emit.Run, hs *histSpec, tag string) (res *histResult, fatal
 
 var jobIDs = []string{"j0", "j1", "j2", "job-3", "a.b_c", "BAD", "has-paloma-in", "", "x"}
 
+// The first nGoodDef / nGoodPay entries are accepted documents (structured histories draw mostly from
+// them); they include documents with additional members: every field name of JobDefinition inside a
+// payload, hexPayload inside a definition, unknown members, different orders, duplicated members.
+const nGoodDef = 6
+
 var defPool = []string{
 	`{"abi":"0xabcd","address":"0x1111111111111111111111111111111111111111"}`,
 	`{"abi":"","address":"0x2222222222222222222222222222222222222222"}`,
 	`{"abi":"[{\"inputs\":[],\"name\":\"f\",\"type\":\"function\"}]","address":"0x3333333333333333333333333333333333333333"}`,
-	`{"ABI":"a1b2c","Address":"not-an-address"}`,
+	`{"hexPayload":"dead","abi":"0x0102","address":"0x5555555555555555555555555555555555555555","note":[1,{"a":null}]}`,
+	`{"address":"0x6666666666666666666666666666666666666666","address":"0x7777777777777777777777777777777777777777","abi":"0a"}`,
 	`{"address":"0x4444444444444444444444444444444444444444","extra":1}`,
+	`{"ABI":"a1b2c","Address":"not-an-address"}`,
+	`{"hexPayload":"zz","address":"0x8888888888888888888888888888888888888888"}`,
 	`{}`,
 	`{"abi":5}`,
 	`not json`,
 	``,
 }
+
+const nGoodPay = 14
 
 var payPool = []string{
 	`{"hexPayload":"a9059cbb000000000000000000000000aabbccddeeff00112233445566778899aabbccdd"}`,
@@ -887,6 +904,15 @@ var payPool = []string{
 	`{"hexPayload":"0x1"}`,
 	`{"hexPayload":""}`,
 	`{}`,
+	`{"hexPayload":"beef","address":"0x9999999999999999999999999999999999999999"}`,
+	`{"address":"0x9999999999999999999999999999999999999999","abi":"0xffff","hexPayload":"c0de"}`,
+	`{"ABI":"ee","hexPayload":"02","Address":"0xaaaaaaaaaaaaaaaaaaaaaaaaaaaaaaaaaaaaaaaa"}`,
+	`{"abi":"0x77","unknown":{"a":[1,2]},"hexPayload":"03","x":null}`,
+	`{"hexPayload":"01","hexPayload":"04"}`,
+	`{"hexPayload":"zz","hexPayload":"05"}`,
+	`{"address":"0xbbbbbbbbbbbbbbbbbbbbbbbbbbbbbbbbbbbbbbbb"}`,
+	`{"hexPayload":"06","hexPayload":"zz"}`,
+	`{"hexPayload":"07","address":7}`,
 	`{"hexPayload":"12zz34"}`,
 	`{"hexPayload":"0xg0"}`,
 	`{"hexPayload":"6 "}`,
@@ -950,7 +976,7 @@ func genHistory(r *rand.Rand, hostile bool) *histSpec {
 		if hostile && r.Intn(3) == 0 || r.Intn(14) == 0 {
 			id = ids[r.Intn(len(ids))]
 		}
-		js := &jobSpec{ID: id, CType: "evm", CRef: chainRefs[r.Intn(2)], Def: pick(defPool, 3), Payload: pick(payPool, 7), Mod: r.Intn(5) < 3}
+		js := &jobSpec{ID: id, CType: "evm", CRef: chainRefs[r.Intn(2)], Def: pick(defPool, nGoodDef), Payload: pick(payPool, nGoodPay), Mod: r.Intn(5) < 3}
 		switch r.Intn(24) {
 		case 0, 1:
 			js.CRef = "gnosis-main"
@@ -1009,7 +1035,7 @@ func genHistory(r *rand.Rand, hostile bool) *histSpec {
 			case k == 0 || !target.mod && k < 3:
 				op.InNil = true
 			case k == 1 || k == 2:
-				op.In = pick(payPool, 7)
+				op.In = pick(payPool, nGoodPay)
 			default:
 				op.In = ""
 			}
@@ -1041,7 +1067,7 @@ func genHistory(r *rand.Rand, hostile bool) *histSpec {
 			case k == 0 || !target.mod && k < 3:
 				op.InNil = true
 			case k == 1:
-				op.In = pick(payPool, 7)
+				op.In = pick(payPool, nGoodPay)
 			default:
 				op.In = string(wrapJSON(randAddr(r, r.Intn(8))))
 			}
@@ -1101,7 +1127,7 @@ func corpusDir() string {
 func TestCorr(t *testing.T) {
 	run := emit.Start("C17", 300)
 	run.Rule("fresh integration fixture per history (3 EVM chains, 2-4 validators with drawn MEV traits / relayer fees, so that relayer selection fails on some chains); " +
-		"4-10 requests per history: create (msg server | wasm binding | keeper; duplicate, invalid, other-chain, MEV jobs; JSON / hex / non-hex / odd-length payload pool), " +
+		"4-10 requests per history: create (msg server | wasm binding | keeper; duplicate, invalid, other-chain, MEV jobs; JSON / hex / non-hex / odd-length payload pool; stored and supplied documents with extra members: address / abi inside a payload, hexPayload inside a definition, unknown and duplicated members, any order), " +
 		"execute (msg server account caller | wasm binding | legacy binding | keeper with 0/20/31/32/33/64-byte sender or contract, nil or empty or supplied payload, transactional or not), " +
 		"resnap (new snapshot not yet announced => just-in-time valset update). 1 history in 6 is drawn from the hostile pools only. " +
 		"non-trivial = at least one accepted and one rejected request. Plus unit cases for injectSenderIntoPayload, common.FromHex and the binding's wrapping.")
